@@ -1,9 +1,12 @@
 package main
 
 import (
+	"bufio"
+	"context"
 	"encoding/json"
 	"errors"
 	"fmt"
+	"io"
 	"strings"
 
 	"github.com/ddddddO/gtree"
@@ -24,12 +27,39 @@ type c05Replay struct {
 	Fmt    model.Fmt4 `json:"fmt"`
 	Route  string     `json:"route"`
 	StopAt int        `json:"stop_at"`
+	ErrKind string    `json:"err_kind,omitempty"`
+	Extra   string    `json:"extra_options,omitempty"`
 }
+
+// options that do not concern a walk
+var c05Extras = []string{"json", "yaml", "toml", "noiter", "exts", "strict", "target", "nil", "nil,toml,exts,json", "strict,yaml,noiter"}
+
+// the errors a callback may return: the walk must hand back the very value, whatever it is or wraps
+var c05Errs = map[string]error{
+	"":            errStop,
+	"eof":         io.EOF,
+	"wrapped-eof": fmt.Errorf("callback: %w", io.EOF),
+	"unexpected":  io.ErrUnexpectedEOF,
+	"canceled":    context.Canceled,
+	"deadline":    fmt.Errorf("callback: %w", context.DeadlineExceeded),
+	"joined":      errors.Join(errors.New("x"), io.EOF),
+	"exist":       gtree.ErrExistPath,
+	"nilroot":     gtree.ErrNilNode,
+	"short":       bufio.ErrTooLong,
+}
+var c05ErrKinds = []string{"eof", "wrapped-eof", "unexpected", "canceled", "deadline", "joined", "exist", "nilroot", "short"}
 
 // c05Run performs one walk; stopAt==0 means never stop. Returns the visited rows, the returned error,
 // the number of callback entries after the stop, and a panic text.
-func c05Run(route, doc string, root *model.Node, fm model.Fmt4, stopAt int) (rows []sut.WalkRow, err error, after int, pan string) {
+func c05Run(route, doc string, root *model.Node, fm model.Fmt4, stopAt int, kind ...string) (rows []sut.WalkRow, err error, after int, pan string) {
 	opts := sut.FmtOpts(fm)
+	errStop := errStop
+	if len(kind) > 0 {
+		errStop = c05Errs[kind[0]]
+	}
+	if len(kind) > 1 {
+		opts = append(opts, extraOpts(kind[1], "/nonexistent/never/used")...)
+	}
 	stopped := false
 	cb := func(wn *gtree.WalkerNode) error {
 		if stopped {
@@ -46,10 +76,18 @@ func c05Run(route, doc string, root *model.Node, fm model.Fmt4, stopAt int) (row
 		switch route {
 		case "md":
 			err = gtree.WalkFromMarkdown(strings.NewReader(doc), cb, opts...)
+		case "md-alias":
+			err = gtree.Walk(strings.NewReader(doc), cb, opts...)
 		case "root":
 			err = gtree.WalkFromRoot(sut.BuildRoot(root), cb, opts...)
-		case "iter":
-			for wn, e := range gtree.WalkIterFromRoot(sut.BuildRoot(root), opts...) {
+		case "root-alias":
+			err = gtree.WalkProgrammably(sut.BuildRoot(root), cb, opts...)
+		case "iter", "iter-alias":
+			it := gtree.WalkIterFromRoot
+			if route == "iter-alias" {
+				it = gtree.WalkIterProgrammably
+			}
+			for wn, e := range it(sut.BuildRoot(root), opts...) {
 				if stopped {
 					after++
 				}
@@ -68,21 +106,36 @@ func c05Run(route, doc string, root *model.Node, fm model.Fmt4, stopAt int) (row
 	return
 }
 
-func c05Judge(c *rep.Ctx, route, doc string, f model.Forest, fm model.Fmt4, stopAt int) {
+func c05Judge(c *rep.Ctx, route, doc string, f model.Forest, fm model.Fmt4, stopAt int, kind ...string) {
+	ek := ""
+	if len(kind) > 0 {
+		ek = kind[0]
+	}
+	errStop := c05Errs[ek]
+	extra := ""
+	if len(kind) > 1 {
+		extra = kind[1]
+	}
 	m := model.Merge(f)
 	var want []model.Row
 	for _, r := range m {
 		want = append(want, model.Rows(r, fm)...)
 	}
 	var root *model.Node
-	if route != "md" {
+	if !strings.HasPrefix(route, "md") {
 		root = f[0]
 	}
-	rows, err, after, pan := c05Run(route, doc, root, fm, stopAt)
+	rows, err, after, pan := c05Run(route, doc, root, fm, stopAt, ek, extra)
 	c.Eval()
 	c.Trans(len(rows))
-	rp := c05Replay{"c05", doc, fm, route, stopAt}
+	rp := c05Replay{"c05", doc, fm, route, stopAt, ek, extra}
 	tag := route
+	if ek != "" {
+		tag += "|" + ek
+	}
+	if extra != "" {
+		tag += "|with-options:" + extra
+	}
 	if pan != "" {
 		c.Violation("C05|panic|"+tag, fmt.Sprintf("doc=%q stopAt=%d: %s", doc, stopAt, pan), len(doc), rp)
 		return
@@ -111,7 +164,7 @@ func c05Judge(c *rep.Ctx, route, doc string, f model.Forest, fm model.Fmt4, stop
 		}
 	}
 	switch {
-	case stopAt > 0 && stopAt <= n && route != "iter":
+	case stopAt > 0 && stopAt <= n && !strings.HasPrefix(route, "iter"):
 		if err != errStop {
 			c.Violation("C05|callback-error-not-returned-unchanged|"+tag, fmt.Sprintf("doc=%q stopAt=%d: returned %v (want the sentinel itself)", doc, stopAt, err), len(doc), rp)
 		}
@@ -222,6 +275,45 @@ func init() {
 						c.Sample(map[string]any{"doc": doc, "stop_positions": fmt.Sprintf("0..%d", n+1)})
 					}
 					total := model.Merge(f).Size()
+					if n <= 5 {
+						// which branch-format options are given and in which order; empty connectors (Row is still
+						// Branch + space + Name)
+						for _, fm := range append(append([]model.Fmt4{}, fmtOrderTuples...), fmtTuples[2], fmtTuples[7]) {
+							c05Judge(c, "md", doc, f, fm, 0)
+							c05Judge(c, "md-alias", doc, f, fm, total)
+							if single {
+								c05Judge(c, "root", doc, f, fm, 0)
+								c05Judge(c, "iter", doc, f, fm, total)
+								c05Judge(c, "root-alias", doc, f, fm, total)
+								c05Judge(c, "iter-alias", doc, f, fm, 1)
+							}
+						}
+					}
+					if n <= 4 {
+						// options that do not concern a walk change nothing
+						for _, ex := range c05Extras {
+							for _, stop := range []int{0, total} {
+								c05Judge(c, "md", doc, f, fmtTuples[1], stop, "", ex)
+								if single {
+									c05Judge(c, "root", doc, f, fmtTuples[1], stop, "", ex)
+									c05Judge(c, "iter", doc, f, model.DefaultFmt, stop, "", ex)
+								}
+							}
+						}
+					}
+					if n <= 5 {
+						// the callback's error is handed back as the very value, whatever it is or wraps
+						for _, ek := range c05ErrKinds {
+							for stop := 1; stop <= total; stop++ {
+								c05Judge(c, "md", doc, f, model.DefaultFmt, stop, ek)
+								c05Judge(c, "md-alias", doc, f, model.DefaultFmt, stop, ek)
+								if single {
+									c05Judge(c, "root", doc, f, model.DefaultFmt, stop, ek)
+									c05Judge(c, "root-alias", doc, f, model.DefaultFmt, stop, ek)
+								}
+							}
+						}
+					}
 					for fi, fm := range fms {
 						for stop := 0; stop <= total+1; stop++ {
 							if fi > 0 && stop > 0 && n > 5 && stop%2 == 0 {
@@ -328,7 +420,7 @@ func init() {
 						sb.WriteString(r.Row + "\n")
 					}
 					if sb.String() != out {
-						c.Violation("C05|rows-differ-from-text-output", fmt.Sprintf("doc=%q rows=%q text=%q", doc, sb.String(), out), len(doc), c05Replay{"c05", doc, model.DefaultFmt, "md", 0})
+						c.Violation("C05|rows-differ-from-text-output", fmt.Sprintf("doc=%q rows=%q text=%q", doc, sb.String(), out), len(doc), c05Replay{"c05", doc, model.DefaultFmt, "md", 0, "", ""})
 					}
 				})
 			})
@@ -341,7 +433,7 @@ func init() {
 		}
 		sp := model.ParseSpec(r.Doc)
 		c := rep.New("C05", "replay", "quick", 0, 1, 0, 0)
-		c05Judge(c, r.Route, r.Doc, sp.Forest, r.Fmt, r.StopAt)
+		c05Judge(c, r.Route, r.Doc, sp.Forest, r.Fmt, r.StopAt, r.ErrKind, r.Extra)
 		fmt.Printf("doc:\n%s\nroute=%s stopAt=%d\n", r.Doc, r.Route, r.StopAt)
 		for k, v := range c.R.ViolEx {
 			fmt.Println(k, v[0].Detail)
